@@ -124,7 +124,10 @@ def validate(
                         else:
                             result[k] = v
 
-                wants_args = '*args' in str(signature)
+                var_positional = next(
+                    (p.name for p in signature.parameters.values() if p.kind is inspect.Parameter.VAR_POSITIONAL),
+                    None,
+                )
                 used_args = []
 
                 try:
@@ -133,7 +136,7 @@ def validate(
                     raise ValidateException(str(ex))
 
                 for k in bound_args:
-                    if k == 'args' and wants_args:
+                    if k == var_positional:
                         for arg, parameter in zip(
                                 [a for a in args if a not in used_args],
                                 [p for p in parameters if p.name not in used_parameter_names]
